@@ -218,4 +218,10 @@ theorem insertTwoColumnsOpts_total_A (ed : Editor Int) (pos : Int) (l r : List I
     ∃ x, ed.insertTwoColumnsOpts cxA pos l r gap width pct o = .ok x :=
   insertTwoColumnsOpts_total cxA_Sane cxA_wrapFits ed pos l r gap width pct o hg
 
+/-- … for EVERY value of the minimum distance (a negative one is taken as 0 since repair D17) -/
+theorem insertTwoColumnsOpts_total_A_any (ed : Editor Int) (pos : Int) (l r : List Int)
+    (gap width : Int) (pct : Pct) (o : Options Int) :
+    ∃ x, ed.insertTwoColumnsOpts cxA pos l r gap width pct o = .ok x :=
+  insertTwoColumnsOpts_total_any cxA_Sane cxA_wrapFits ed pos l r gap width pct o
+
 end RosedVerif
